@@ -444,6 +444,10 @@ func (w *binaryWriter) Finish() error {
 		if w.err = w.emit(seq); w.err != nil {
 			return w.err
 		}
+
+		// Re-arm the buffer so that values written after this Finish are again
+		// held back until the next Finish has written their symbol table.
+		w.bufs.push(&datagram{})
 	}
 
 	return nil
